@@ -65,3 +65,100 @@ Definition bA2c := core_build fsA cf oldA versA 20 20 rootA.
 Definition bA2r := ref_build fsA cf (prev_of_cache oldA) 20 20 rootA.
 Example findingA_second : agree bA2c bA2r = true /\ (List.length (cr_log bA2c), List.length (rr_log bA2r)) = (1%nat, 6%nat).
 Proof. vm_compute. split; reflexivity. Qed.
+
+(* ------------------------------------------------------------------ *)
+(* the coverage condition of the theorems, as a check on a cache      *)
+(* ------------------------------------------------------------------ *)
+Definition served_tame (c : cache) (vs : pyval) (o : op) : bool :=
+  op_raised o || negb (replayable c vs o) || tame [] o.
+Definition cache_tameb (c : cache) (vs : pyval) : bool :=
+  forallb (fun e => match snd e with Some o => served_tame c vs o | None => true end) (c_files c) &&
+  forallb (fun e => match snd e with Some o => served_tame c vs o | None => true end) (c_subs c).
+
+Example sc1_cache_tame : cache_tameb old1 vers = true.
+Proof. vm_compute. reflexivity. Qed.
+Example sc2_cache_tame : cache_tameb old3 vers3 = true.
+Proof. vm_compute. reflexivity. Qed.
+Example findingA_not_tame : cache_tameb oldA versA = false.
+Proof. vm_compute. reflexivity. Qed.
+
+(* ------------------------------------------------------------------ *)
+(* Finding 2: subbuild functions must not distinguish JSON-equal arguments (RespectsS).            *)
+(* The function below tells 1 from 1.0; the first build records the call with 1, the second build   *)
+(* asks with 1.0: Core serves the record (same key), the reference runs the function.               *)
+(* The record of the first build is not faithful for the presentation 1.0 of its argument.          *)
+(* ------------------------------------------------------------------ *)
+Definition s_ty (a k : pyval) : prog :=
+  match a with PInt _ => Ret (PStr "int") | _ => Ret (PStr "other") end.
+Definition FT : ftable := {| ft_file := ft_file F; ft_sub := fun f => s_ty |}.
+Definition rootT1 : prog := Subbuild false "ty" (PInt 1) (PDict []) s_ty (fun o => match o with inl v => Ret v | inr e => Raise e end).
+Definition rootT2 : prog := Subbuild false "ty" (PFloat (FFin false 1 0)) (PDict []) s_ty (fun o => match o with inl v => Ret v | inr e => Raise e end).
+Definition versT : pyval := PDict [(PStr "ty", PInt 1)].
+Definition bT := core_build fs0 cf (empty_cache "b" versT) versT 10 10 rootT1.
+Definition stT : kstate := st_of bT.
+Definition oldT : cache := CoreCache.cache_of_state "b" stT.
+Definition fsT2 : fsT := CoreCache.next_fs cf stT.
+Example findingT_record :
+  map (fun o => (faithful_op (kq fs0 stT) FT o, faithful_sub_at (kq fs0 stT) FT o (PFloat (FFin false 1 0)) (PDict []))) (map snd (k_newS stT))
+  = [(true, false)].
+Proof. vm_compute. reflexivity. Qed.
+Example findingT_second :
+  (show_outcome (cr_outcome (core_build fsT2 cf oldT versT 20 20 rootT2)),
+   show_outcome (rr_outcome (ref_build fsT2 cf (prev_of_cache oldT) 20 20 rootT2)))
+  = ("ok:'int'", "ok:'other'").
+Proof. vm_compute. reflexivity. Qed.
+
+(* ------------------------------------------------------------------ *)
+(* Finding 3: the directory made for the cache file can be pruned during the build: with the cache   *)
+(* file at cache/d (d missing at the start) a failed target x/d takes d away again (Core and the     *)
+(* reference agree on this); the tree with the cache file in place is then not a tree, which is why  *)
+(* [fs_wf (next_fs cf s1)] stays a hypothesis of the two-build corollary.                            *)
+(* ------------------------------------------------------------------ *)
+Definition cfD : path := ["cache"; "d"].
+Definition rootD : prog := BuildFile false ["x"; "d"] HASH "boom" PNone (PDict []) f_boom (fun _ => Ret (PStr "ok")).
+Definition bD := core_build fs0 cfD (empty_cache "b" vers) vers 10 10 rootD.
+Example findingD :
+  cr_outcome bD = inl (PStr "ok") /\ lookup (cr_tree bD) ["d"] = None /\
+  rr_outcome (ref_build fs0 cfD (prev_of_cache (empty_cache "b" vers)) 10 10 rootD) = inl (PStr "ok") /\
+  lookup (rr_tree (ref_build fs0 cfD (prev_of_cache (empty_cache "b" vers)) 10 10 rootD)) ["d"] = None.
+Proof. vm_compute. repeat split; reflexivity. Qed.
+
+(* ------------------------------------------------------------------ *)
+(* Finding 4: [faithful_cache] alone is not an invariant.  [follows] matches a nested build_file record  *)
+(* by its path only: a cache whose single registered record is faithful can hold, inside that record,   *)
+(* a record under a wrong function name.  A hit registers the nested record, and the cache of the next   *)
+(* build is no longer faithful.  (The deep form [deep_cache] excludes such caches; Core never writes them.) *)
+(* ------------------------------------------------------------------ *)
+Definition f_wrap (p : path) (a k : pyval) : prog :=
+  BuildFile false ["inner"] HASH "copy" PNone (PDict []) f_copy (fun _ => Write "w" (Ret (PInt 7))).
+Definition FJ : ftable :=
+  {| ft_file := fun f => if String.eqb f "wrap" then f_wrap else if String.eqb f "copy" then f_copy else f_boom;
+     ft_sub := fun f => s_sub |}.
+Definition outN : fnode := {| f_bytes := "w"; f_mtime := 11; f_id := 5; f_json := None |}.
+Definition innerN : fnode := {| f_bytes := "hello!"; f_mtime := 12; f_id := 6; f_json := None |}.
+Definition fsJ : fsT :=
+  [(cf, Some (NFile cache_marker)); (["out"], Some (NFile outN)); (["inner"], Some (NFile innerN)); (["src"], Some (NFile src0))].
+Definition versJ : pyval := PDict [(PStr "wrap", PInt 1); (PStr "copy", PInt 1); (PStr "JUNK", PInt 1)].
+Definition recInner : op :=
+  OBuildFile ["inner"] HASH "JUNK" PNone (PDict []) [OSimple (QRead ["src"] METADATA) (cmp_of METADATA src0) None]
+             (PInt 1) (cmp_of HASH innerN) false false.
+Definition recOut : op :=
+  OBuildFile ["out"] METADATA "wrap" PNone (PDict []) [recInner] (PInt 7) (cmp_of METADATA outN) false false.
+Definition oldJ : cache :=
+  {| c_name := "b"; c_files := [(["out"], Some recOut)]; c_subs := []; c_dirs := []; c_fvers := versJ; c_built := [] |}.
+Definition rootJ : prog := BuildFile false ["out"] METADATA "wrap" PNone (PDict []) f_wrap (fun _ => Ret (PStr "ok")).
+Definition bJ := core_build fsJ cf oldJ versJ 20 20 rootJ.
+Definition stJ : kstate := st_of bJ.
+Definition newJ : cache := CoreCache.cache_of_state "b" stJ.
+
+(* the old cache is faithful (its only registered record is), the build is a hit ... *)
+Example findingJ_old : faithful_op (CoreLaws7.kp_of fsJ) FJ recOut = true /\ faithful_op (CoreLaws7.kp_of fsJ) FJ recInner = false.
+Proof. vm_compute. split; reflexivity. Qed.
+Example findingJ_hit : cr_outcome bJ = inl (PStr "ok") /\ List.length (cr_log bJ) = 1%nat.
+Proof. vm_compute. split; reflexivity. Qed.
+(* ... and the new cache registers the nested record: not raised, replayable, tame, not faithful *)
+Example findingJ_new :
+  map (fun e => (fst e, op_raised (snd e), replayable newJ versJ (snd e), tame [] (snd e),
+                 faithful_op (kpx (CoreLaws7.kp_of fsJ) (k_fs stJ)) FJ (snd e))) (k_newF stJ)
+  = [(["out"], false, true, true, true); (["inner"], false, true, true, false)].
+Proof. vm_compute. reflexivity. Qed.
